@@ -2,13 +2,52 @@
    Statements only; every proof is [exact <lemma>]. *)
 Require Import Gengo.Base.Bytes Gengo.Model.CamelCase Gengo.Proofs.CamelCase.
 
-(* For every rune type and EVERY classification of runes into the four classes (so no Unicode
-   table is trusted), Split returns — never panics — on every string. *)
+(* Every index / slice expression of Split — runes[len(runes)-1] in the first loop,
+   runes[i][0], runes[i+1][0], runes[i][len(runes[i])-1] and runes[i][:len(runes[i])-1] in the
+   second — is a CHECKED operation of the model: it yields [Panic] when it would be out of range
+   in Go (Model/CamelCase.v: pass1, idx0, idx_last, slice_init), and [Panic] propagates to the
+   result of [split].  "Split is total" is therefore the statement that this error never comes
+   out, for every rune type, EVERY classification of runes into the four classes (so no Unicode
+   table is trusted) and every string. *)
 Theorem C19_split_total :
   forall (rune : Type) (cls : rune -> class) (s : gostr rune),
     exists ws, split rune cls true s = Ok ws.
 Proof. exact split_total. Qed.
 Print Assumptions C19_split_total.
+
+(* the same, said as "the out-of-range error (and the fuel error) is never returned" *)
+Theorem C19_split_never_out_of_range :
+  forall (rune : Type) (cls : rune -> class) (s : gostr rune),
+    split rune cls true s <> Panic /\ split rune cls true s <> OutOfFuel.
+Proof. exact split_never_panics. Qed.
+Print Assumptions C19_split_never_out_of_range.
+
+(* The invariant behind it.  (1) the groups the first loop hands over are all non-empty;
+   (2) on non-empty groups every access of the second loop is in range, whatever rune was
+   carried over from the previous iteration. *)
+Theorem C19_first_loop_groups_nonempty :
+  forall (rune : Type) (cls : rune -> class) fixed src gs,
+    pass1 rune cls fixed src [] COther = Ok gs -> Forall (fun g => g <> []) (rev gs).
+Proof. exact pass1_groups_nonempty. Qed.
+Print Assumptions C19_first_loop_groups_nonempty.
+
+Theorem C19_second_loop_in_range :
+  forall (rune : Type) (cls : rune -> class) gs carry,
+    Forall (fun g => g <> []) gs -> exists out, pass2 rune cls carry gs = Ok out.
+Proof. exact pass2_in_range. Qed.
+Print Assumptions C19_second_loop_in_range.
+
+(* ... and the checks are real: an empty group in position i, or in position i+1 behind an
+   upper-case group, makes the second loop panic as the Go code would — so (2) needs (1). *)
+Theorem C19_second_loop_accesses_checked :
+  forall (rune : Type) (cls : rune -> class),
+    (forall g tl, pass2 rune cls [] ([] :: g :: tl) = Panic) /\
+    (forall a g tl, r_upper rune cls a = true -> pass2 rune cls [] ((a :: g) :: [] :: tl) = Panic).
+Proof.
+  exact (fun rune cls => conj (pass2_empty_group_panics rune cls)
+                              (pass2_empty_next_group_panics rune cls)).
+Qed.
+Print Assumptions C19_second_loop_accesses_checked.
 
 (* The words concatenate to the input and none is empty (the empty string gives no words). *)
 Theorem C19_split_lossless :
@@ -24,7 +63,9 @@ Theorem C19_split_valid_words_nonempty :
 Proof. intros rune cls. exact (split_valid_nonempty_words rune cls true). Qed.
 Print Assumptions C19_split_valid_words_nonempty.
 
-(* not valid UTF-8: the whole string as one word *)
+(* not valid UTF-8: the whole string as one word.  This one holds by computation: the first
+   branch of the model is the Go code's  if !utf8.ValidString(src) { return []string{src} }
+   (utf8.ValidString itself is in the trusted base); it records the clause, it is not a deep fact. *)
 Theorem C19_split_invalid :
   forall (rune : Type) (cls : rune -> class) bs, split rune cls true (Invalid bs) = Ok [bs].
 Proof. intros rune cls. exact (split_invalid rune cls true). Qed.
@@ -49,4 +90,12 @@ Example C19_example :
   split crune c_cls true
     (Valid [(80,CUpper);(68,CUpper);(70,CUpper);(76,CUpper);(111,CLower);(97,CLower);(100,CLower);(49,CDigit)]%N)
   = Ok [[(80,CUpper);(68,CUpper);(70,CUpper)];[(76,CUpper);(111,CLower);(97,CLower);(100,CLower);(49,CDigit)]]%N.
+Proof. vm_compute. reflexivity. Qed.
+
+(* non-vacuity of the second loop's move with a one-rune upper group: "aBc" -> "a","Bc"
+   (runes[i] becomes empty and is dropped by the third loop, the carried rune is read as
+   runes[i+1][0] by the next iteration) *)
+Example C19_example_single_upper :
+  split crune c_cls true (Valid [(97,CLower);(66,CUpper);(99,CLower);(68,CUpper);(101,CLower)]%N)
+  = Ok [[(97,CLower)];[(66,CUpper);(99,CLower)];[(68,CUpper);(101,CLower)]]%N.
 Proof. vm_compute. reflexivity. Qed.
